@@ -83,7 +83,9 @@ func verifC11Check(line, pid string) {
 	}
 	for _, k := range []string{"Alg", "SSHKeySum", "Serial", "CA", "error", "reason"} {
 		if v, ok := verifrt.JSONField(e.Data, k); ok {
-			verifrt.Assert("c11.verbatim.data."+k, verifLeafOK(v, line, pid))
+			// the data member is stored JSON-encoded: bytes outside ASCII do not survive that encoding
+			// verbatim (invalid UTF-8 becomes U+FFFD), so the claim is made for ASCII values
+			verifrt.Assert("c11.verbatim.data."+k, verifrt.Or(verifrt.Not(verifrt.InClass(v, `[\x00-\x7f]`)), verifLeafOK(v, line, pid)))
 		}
 	}
 }
